@@ -63,11 +63,14 @@ def collapse : List String → List String
 
 def shapeOf (steps : List Step) : String := ",".intercalate (collapse (steps.map stepShape))
 
-def rtOut (spec : List Item) : String :=
+def rtOut (spec : List Item) (counters : Option (Nat × Nat × Nat) := none) : String :=
   match buildItems [] spec emptyFav with
   | .dup => "api-dup"
   | .reject => "api-reject"
-  | .built f =>
+  | .built f0 =>
+    let f := match counters with
+      | some (a, b, c) => { f0 with nB := a, nL := b, nF := c }
+      | none => f0
     match saveBytes f with
     | .error e => toString e
     | .ok bytes =>
@@ -83,6 +86,10 @@ def stepC19 (_ : Unit) (ws : List String) : Unit × String :=
     | "rt" :: ts => match parseTree ts with
         | some spec => rtOut spec
         | none => "bad-op"
+    | "rtp" :: a :: b :: c :: ts =>
+        match natTok a 65535, natTok b 255, natTok c 255, parseTree ts with
+        | some a, some b, some c, some spec => rtOut spec (some (a, b, c))
+        | _, _, _, _ => "bad-op"
     | ["load", h] => match parseHex h with
         | some bs => match load bs with
             | .error e => toString e
